@@ -43,8 +43,13 @@ EMBED_METHODS = {"Reader": ["Read"], "Writer": ["Write"], "LocalIface": ["LocalM
                  "Handler": ["Handle"], "Gen": ["Produce", "Consume"]}
 
 
+SWITCH_DEFAULT = {"C01_VARIADIC_MULTI": "1", "C01_C03_LOCALS": "1", "C01_GOMOD_SPELLINGS": "1"}
+
+
 def envflag(name):
-    return os.environ.get(name) == "1"
+    """Classes owned by C03 / C09 are part of the main stream since their fixes are committed in /repo
+    (C01_VARIADIC_MULTI=0, C01_C03_LOCALS=0, C01_GOMOD_SPELLINGS=0 take them out again)."""
+    return os.environ.get(name, SWITCH_DEFAULT.get(name, "0")) == "1"
 
 
 # =========================================================================================
@@ -502,14 +507,95 @@ def corpus_module():
             "src": {"path": gen_pkgs.MOD + "/src", "name": "src"}, "corpus": True}
 
 
+GO_KEYWORDS = ["break", "default", "func", "interface", "select", "case", "defer", "go", "map", "struct", "chan", "else", "goto", "package",
+               "switch", "const", "fallthrough", "if", "range", "type", "continue", "for", "import", "return", "var"]
+# the reserved list of template/var.go on the pinned tree = coq/Gen/Skeleton.v reserved_names (the specification)
+RESERVED_PINNED = ["mock", "callInfo"] + GO_KEYWORDS + ["string", "bool", "byte", "rune", "uintptr", "int", "int8", "int16", "int32", "int64",
+                                                       "uint", "uint8", "uint16", "uint32", "uint64", "float32", "float64", "complex64", "complex128"]
+
+
+def reserved_from_code(tree):
+    """The string literals of the `switch name { case ... }` in varName, parsed from template/var.go of THIS tree,
+    so that the generator follows the code.  [] if there is no such switch any more."""
+    try:
+        src = (tree / "template" / "var.go").read_text()
+    except OSError:
+        return []
+    m = re.search(r"func varName\(.*?\n}\n", src, re.S)
+    if not m:
+        return []
+    body = m.group(0)
+    sw = re.search(r"switch name \{(.*?)\n\t\t?name \+= \"Param\"", body, re.S)
+    if not sw:
+        return []
+    return re.findall(r'"([A-Za-z0-9_]+)"', sw.group(1))
+
+
+def cap(x):
+    return x[0].upper() + x[1:]
+
+
+def template_identifiers():
+    """Every identifier the two built-in templates declare or use themselves that a decapitalised type name can spell."""
+    ids = set(TMPL_VARS["testify"]) | set(TMPL_VARS["matryer"]) | set(TF_TABOO) | set(MT_TABOO) | set(BUILTINS)
+    ids |= {"ret", "ret1", "returnFunc", "ok", "arg0", "arg1", "r0", "r1", "stub", "calls", "sync", "fmt"}
+    return sorted(x for x in ids if x[0].isalpha() and x[0].islower())
+
+
+def gennames_module(reserved):
+    """Unnamed and `_` parameters whose TYPE NAME decapitalises to an identifier of the templates or to an entry of
+    varName's reserved list (from the code of this run, united with the pinned list), directly and behind pointer /
+    slice / map / chan wrappers, local and foreign."""
+    tmpl_ids = template_identifiers()
+    allids = sorted(set(tmpl_ids) | set(reserved) | set(RESERVED_PINNED))
+    allids = [x for x in allids if x[0].isalpha() and x[0].islower()]
+    tn = gen_pkgs.MOD + "/ext/tnames"
+    ext = "package tnames\n\n" + "".join("type %s struct{ V int }\n" % cap(x) for x in tmpl_ids)
+    out = ["package src\n", 'import tn "%s"\n' % tn]
+    names, gen_expect = [], []
+    for x in allids:
+        T = cap(x)
+        out.append("type %s struct{ V int }" % T)
+    out.append("")
+    for x in allids:
+        T = cap(x)
+        full = x in tmpl_ids or x in ("string", "func", "map", "go", "int")
+        out.append("type G%s interface {" % T)
+        out.append("\tU(%s) error" % T)
+        out.append("\tB(_ %s, _ []%s) (int, error)" % (T, T))
+        if full:
+            out.append("\tV(string, ...%s) error" % T)
+            out.append("\tV2(%s, ...int) (int, error)" % T)
+            out.append("\tW(map[string]%s, chan %s, *%s)" % (T, T, T))
+        out.append("}\n")
+        names.append("G" + T)
+        gen_expect.append(("G" + T, "U", T))
+    for x in tmpl_ids:
+        T = cap(x)
+        out.append("type F%s interface {\n\tU(tn.%s) error\n\tV2(*tn.%s, ...tn.%s) (bool, error)\n}\n" % (T, T, T, T))
+        names.append("F" + T)
+        gen_expect.append(("F" + T, "U", T))
+    files = {"ext/tnames/types.go": ext, "src/src.go": "\n".join(out)}
+    return {"files": files, "ifaces": [], "static_names": names, "ext": [{"path": tn, "name": "tnames", "alias": "tn"}], "std": [],
+            "mod": gen_pkgs.MOD, "src": {"path": gen_pkgs.MOD + "/src", "name": "src"}, "corpus": True, "gennames": True,
+            "gen_expect": gen_expect}
+
+
 def make_configs(rng, modules, thorough):
     cfgs = []
     for k, m in enumerate(modules):
         combos = [(t, f, p) for t in TEMPLATES for f in FORMATTERS for p in PLACEMENTS]
+        if m.get("gennames") and not thorough:        # both templates x all placements, one non-repairing formatter
+            combos = [(t, "gofmt" if p != "separate" else "noop", p) for t in TEMPLATES for p in PLACEMENTS]
         for j, (t, f, p) in enumerate(combos):
             optlist = TESTIFY_OPTS if t == "testify" else MATRYER_OPTS
             variants = [optlist[(k * 7 + j) % len(optlist)]]
-            if m.get("corpus"):                         # the corpus sees every option set (quick: three per combination)
+            if m.get("gennames"):
+                variants = ([{"unroll-variadic": False}, {"unroll-variadic": True}] if t == "testify"
+                            else [{}, {"skip-ensure": True, "stub-impl": True, "with-resets": True}])
+                if not thorough:
+                    variants = [variants[j % 2]] if p != "inpkg" else variants
+            elif m.get("corpus"):                       # the corpus sees every option set (quick: three per combination)
                 variants = optlist if thorough else [optlist[(j + d) % len(optlist)] for d in range(3)]
             for o in variants:
                 cfgs.append({"module": m, "files": m.get("files"), "template": t, "formatter": f, "placement": p, "opts": dict(o),
@@ -683,6 +769,7 @@ def check(ctx, only=None):
         ctx.write_evidence(gate, 0, 0, "build failed", [])
         return
     thorough = ctx.thorough()
+    reserved_code = []
     if only is not None:
         cfgs = only
     else:
@@ -691,10 +778,12 @@ def check(ctx, only=None):
         cm = corpus_module()
         if cm:
             modules.insert(0, cm)
+        reserved_code = reserved_from_code(ctx.tree)
+        modules.insert(1 if cm else 0, gennames_module(reserved_code))
         cfgs = make_configs(ctx.rng, modules, thorough)
         if envflag("C01_GOMOD_SPELLINGS"):           # owned by C09 (DESIGN row 3); off by default
             for k, c in enumerate(cfgs):
-                if c["placement"] == "inpkg" and k % 4 == 0:
+                if c["placement"] == "inpkg" and k % 4 == 0 and c.get("files") is None:
                     c["gomod_line"] = ['module "%s"' % gen_pkgs.MOD, "module %s // comment" % gen_pkgs.MOD, "module (\n\t%s\n)" % gen_pkgs.MOD][k % 3]
         cfgs += witness_configs(len(cfgs))
     results = pmap(lambda c: run_config(ctx, c), cfgs)
@@ -720,6 +809,43 @@ def check(ctx, only=None):
     terms = [case_term(c, r) for c, r in done]
     bad, errs = coq_mismatches(ctx, MODS, terms, shard=6) if terms else ([], [])
     skel_errors = [(c, r) for c, r in main if r["stage"] == "done" and not r.get("skel")]
+    # generated names: template/var.go's varName against the model gen_name (Gen/Skeleton.v), and its reserved list
+    # (parsed from the source text of this tree) against reserved_names
+    gen_pairs, gen_info = [], {}
+    for c, r in main:
+        m = c.get("module") or {}
+        if m.get("gennames") and r.get("probe"):
+            byname = {i["name"]: i for i in r["probe"]["ifaces"]}
+            for iname, mname, T in m["gen_expect"]:
+                i = byname.get(iname)
+                if i:
+                    for mm in i["methods"]:
+                        if mm["name"] == mname and mm["params"]:
+                            gen_pairs.append((T, mm["params"][0]["name"]))
+    gen_pairs = sorted(set(gen_pairs))
+    gen_bad, gen_res_ok = [], None
+    if only is None:
+        rc, out, err = coq_eval(ctx, "gen_names", "From Mk Require Import Lib.Bytes %s." % MODS,
+                                "Definition pairs := %s.\nDefinition code_list := %s." % (
+                                    coq_list("(%s, %s)" % (coq_bytes(a), coq_bytes(b)) for a, b in gen_pairs), strs(reserved_code)),
+                                "Definition G := Eval vm_compute in (gen_mismatches pairs, reserved_agrees code_list).\nPrint G.")
+        flat = " ".join(out.split())
+        mm_ = re.search(r"G = \(\[(.*?)\], (true|false)\)", flat)
+        if rc != 0 or not mm_:
+            errs.append("gen_names: " + (err[-600:] or flat[:300]))
+        else:
+            gen_bad = [gen_pairs[int(x.replace("%nat", ""))] for x in mm_.group(1).split(";") if x.strip()]
+            gen_res_ok = mm_.group(2) == "true"
+        gen_info = {"pairs_checked": len(gen_pairs), "mismatches": gen_bad[:10], "reserved_list_from_code": reserved_code,
+                    "reserved_list_agrees_with_model": gen_res_ok}
+        if (gen_bad or gen_res_ok is False) and not oracle_fail:
+            rp = ctx.write_replay("generated-names", {
+                "what": "template/var.go varName no longer agrees with the model gen_name / reserved_names (Gen/Skeleton.v); "
+                        "no written file failed to type-check",
+                "obligation": "Harness/C01.v gen_mismatches, reserved_agrees; theorem C01_generated_names_avoid_reserved is about the model",
+                "type_name_vs_reported_parameter_name": gen_bad[:20], "reserved_list_parsed_from_var.go": reserved_code,
+                "reserved_list_of_the_model": RESERVED_PINNED})
+            ctx.violation(rp, nofail=True)
     if not gate["ok"] and not oracle_fail:
         ctx.violation(gate["replay"], nofail=True)
     if (bad or errs or skel_errors) and not oracle_fail:
@@ -825,6 +951,7 @@ def check(ctx, only=None):
                        samples,
                        extra={"histogram": hist, "mocked_interfaces": n_ifaces, "mocked_methods": n_methods, "oracle_failures": len(oracle_fail),
                               "model_mismatches": len(bad), "translator_lemmas_checked": len(terms), "witnesses": wit_report,
+                              "generated_names": gen_info,
                               "switches": {k: envflag(k) for k in ("C01_VARIADIC_MULTI", "C01_C03_LOCALS", "C01_GOMOD_SPELLINGS")}},
                        assumptions=["go.mod is written in the plain spelling `module example.com/m` (other spellings: property C09, switch C01_GOMOD_SPELLINGS=1)",
                                     "template-data is set at the top level of the configuration (per-level inheritance: property C08)"])
